@@ -29,6 +29,9 @@ def invariant(target, ordinal, over):
   return deco
 
 
+appended = set()
+
+
 def write_set(body):
   names, attrs = set(), set()
 
@@ -62,6 +65,10 @@ def write_set(body):
         tgt(n.target)
       elif isinstance(n, ast.ExceptHandler) and n.name:
         names.add(n.name)
+      elif isinstance(n, ast.Call) and isinstance(n.func, ast.Attribute) and n.func.attr in ('append', 'extend') \
+              and isinstance(n.func.value, ast.Name):
+        names.add(n.func.value.id)
+        appended.add(n.func.value.id)
   return names, attrs
 
 
@@ -83,6 +90,15 @@ def havoc_value(ex, p, v, hint):
     return v
   if isinstance(v, VTuple):
     return VTuple([havoc_value(ex, p, x, hint) for x in v.items])
+  if isinstance(v, VList) and hint in appended:
+    # a python list the loop appends to: symbolic length from here on
+    lid = fresh_name('l')
+    n = fresh('len', z3.IntSort())
+    p.assume(n >= len(v.items))
+    p.lists[lid] = dict(n=n, elem=v.items[0] if v.items else None)
+    return VListRef(lid)
+  if isinstance(v, VListRef):
+    return v
   if isinstance(v, VList):
     return VList([havoc_value(ex, p, x, hint) for x in v.items])
   if isinstance(v, VRef):
@@ -391,6 +407,18 @@ def one_loop(ex, st, p, it, module, is_for, inv, target, ordinal, optional=froze
     for e in q.events[len(head.events):]:
       if e not in exit_p.events:
         exit_p.events.append(e + ('in-loop',) if isinstance(e, tuple) else e)
+  # element samples of lists appended to in the body
+  for k in names:
+    hv = head_env.get(k)
+    if isinstance(hv, VListRef):
+      for q in ends + breaks:
+        e = q.lists.get(hv.lid, {}).get('elem')
+        if e is not None and exit_p.lists[hv.lid].get('elem') is None:
+          if isinstance(e, VArr):
+            s_ = q.store[e.loc]
+            e = exit_p.new_loc(s_.replace(term=fresh(k, T), base=None))
+          exit_p.lists[hv.lid]['elem'] = e
+          break
   # variables first bound inside the body: bound after the loop (assumption: the loop ran at least once when they are read)
   new_names = set()
   for q in ends + breaks:
